@@ -5,65 +5,106 @@
    The model (Model/Obj.v) follows types/objecttype.go, objectvalue.go, attribute.go, attributesinfo.go,
    annotatedmember.go as they are after the fix: commits of known_findings/C17.json.
 
-   `info_wf (d_info d)` is the layout invariant of attributesInfo (distinct names, required attributes
-   first, given_or_derived has the implicit value undef, equality indexes in range).  It is evaluated by
-   the correspondence run on every accepted definition outside the input class of the open finding
-   `serialization-partial` (ser_complete d = false), see C17_serialization_partial_refuted below. *)
+   Quantifiers.  `accepted d`: d is a definition that `define` (objectType.InitFromHash, by the text
+   route or the init-hash route) accepted in an environment built from accepted definitions — every
+   history of definitions, any inheritance depth (induction over the history and the parent chain).
+   `new_object d args = Ok o`: o is any object the constructor dispatch (named first, then positional)
+   builds from any argument list.
+   Guard.  `ser_complete d = true` excludes exactly the input class of the open finding
+   `serialization-partial` (a `serialization` list that is not a duplicate-free enumeration of all
+   constructor attributes); C17_statement is the unguarded statement, refuted below. *)
 From Coq Require Import ZArith NArith Bool List String.
-From PcoreV Require Import Model.Base Model.Obj Proofs.ObjProofs.
+From PcoreV Require Import Model.Base Model.Obj Proofs.ObjProofs Proofs.ObjDefine.
 Import ListNotations.
 
+(* ---- the layout: every declared constructor attribute (own, inherited, overriding — collectAttributes)
+        has exactly one position, the layout invariant holds ---- *)
+Theorem C17_layout :
+  forall d, accepted d -> ser_complete d = true ->
+  info_wf (d_info d) = true /\
+  (forall a, In a (ai_attrs (d_info d)) -> In a (collect_attributes d) /\ is_ctor_kind (a_kind a) = true) /\
+  (forall a, In a (collect_attributes d) -> is_ctor_kind (a_kind a) = true -> In a (ai_attrs (d_info d))).
+Proof.
+  exact (fun d Ha Hs => match accepted_facts d Ha with
+                        | conj _ (conj _ H) => conj (lo_wf d (H Hs)) (conj (lo_sound d (H Hs)) (lo_complete d (H Hs)))
+                        end).
+Qed.
+Print Assumptions C17_layout.
+
 (* ---- positional and named construction yield equal objects ----
-   For every definition with a well-formed layout and EVERY argument tuple the positional constructor
-   accepts: the named constructor accepts the hash {name_i => arg_i} and the two objects are equal
-   (Equals in both directions). *)
+   EVERY argument tuple the positional constructor accepts: the named constructor accepts the hash
+   {name_i => arg_i} and the two objects are equal (Equals in both directions). *)
 Theorem C17_pos_named_equal :
-  forall d args o, info_wf (d_info d) = true -> positional args -> new_object d args = Ok o ->
+  forall d, accepted d -> ser_complete d = true ->
+  forall args o, positional args -> new_object d args = Ok o ->
   exists o', new_object d [VHash (combine (map a_name (ai_attrs (d_info d))) args)] = Ok o' /\
              obj_eqb o o' = Ok true /\ obj_eqb o' o = Ok true.
-Proof. exact pos_named_equal_info. Qed.
+Proof. exact acc_pos_named_equal. Qed.
 Print Assumptions C17_pos_named_equal.
 
 (* ---- rebuilding an object from its init-hash yields an equal object ----
-   For every constructed object (either constructor): InitHash does not fault, the named constructor
+   Every constructed object (either constructor): InitHash does not fault, the named constructor
    accepts it, and the rebuilt object equals the original. *)
 Theorem C17_init_hash_roundtrip :
-  forall d args o, info_wf (d_info d) = true -> new_object d args = Ok o ->
+  forall d, accepted d -> ser_complete d = true ->
+  forall args o, new_object d args = Ok o ->
   exists h o', init_hash o = Ok h /\ new_object d [VHash h] = Ok o' /\
                obj_eqb o o' = Ok true /\ obj_eqb o' o = Ok true.
-Proof. exact init_hash_roundtrip_info. Qed.
+Proof. exact acc_init_hash_roundtrip. Qed.
 Print Assumptions C17_init_hash_roundtrip.
 
-(* ---- each attribute reads back the value given or its default ---- *)
+(* ---- each attribute reads back the value given or its default ----
+   for every declared constructor attribute a of the type (own or inherited): *)
 Theorem C17_get_given_or_default_positional :
-  forall d args o i a, info_wf (d_info d) = true -> positional args -> new_object d args = Ok o ->
-  nth_error (ai_attrs (d_info d)) i = Some a ->
-  get o (a_name a) = Ok (Some (match nth_error args i with Some v => v | None => default_of a end)) /\
-  (nth_error args i = None -> a_value a <> None).
-Proof. exact get_positional_info. Qed.
+  forall d, accepted d -> ser_complete d = true ->
+  forall args o a, positional args -> new_object d args = Ok o ->
+  In a (collect_attributes d) -> is_ctor_kind (a_kind a) = true ->
+  exists i, nth_error (ai_attrs (d_info d)) i = Some a /\
+    get o (a_name a) = Ok (Some (match nth_error args i with Some v => v | None => default_of a end)) /\
+    (nth_error args i = None -> a_value a <> None).
+Proof. exact acc_get_positional. Qed.
 Print Assumptions C17_get_given_or_default_positional.
 
 Theorem C17_get_given_or_default_named :
-  forall d h o a, info_wf (d_info d) = true -> new_object d [VHash h] = Ok o ->
-  In a (ai_attrs (d_info d)) ->
+  forall d, accepted d -> ser_complete d = true ->
+  forall h o a, new_object d [VHash h] = Ok o ->
+  In a (collect_attributes d) -> is_ctor_kind (a_kind a) = true ->
   get o (a_name a) = Ok (Some (given_or_default h a)) /\ (hget h (a_name a) = None -> a_value a <> None).
-Proof. exact get_named_info. Qed.
+Proof. exact acc_get_named. Qed.
 Print Assumptions C17_get_given_or_default_named.
 
-(* reading a constructed object never raises (no ATTRIBUTE_HAS_NO_VALUE, no index fault) *)
+(* a constant reads its declared value; a constructor attribute read through the type
+   (Member(n).Get(o)) gives what Get gives; reading never raises *)
+Theorem C17_get_constant :
+  forall d, accepted d ->
+  forall o a, o_type o = d -> In a (collect_attributes d) -> a_kind a = KConstant ->
+  exists v, a_value a = Some v /\ attr_get o (a_name a) = AVal v.
+Proof. exact acc_get_constant. Qed.
+Print Assumptions C17_get_constant.
+
+Theorem C17_get_through_type :
+  forall d, accepted d ->
+  forall o a v, o_type o = d -> In a (collect_attributes d) -> is_ctor_kind (a_kind a) = true ->
+  get o (a_name a) = Ok (Some v) -> attr_get o (a_name a) = AVal v.
+Proof. exact acc_attr_get. Qed.
+Print Assumptions C17_get_through_type.
+
 Theorem C17_get_total :
-  forall d args o n, info_wf (d_info d) = true -> new_object d args = Ok o -> exists r, get o n = Ok r.
-Proof. exact get_total_info. Qed.
+  forall d, accepted d -> ser_complete d = true ->
+  forall args o n, new_object d args = Ok o -> exists r, get o n = Ok r.
+Proof. exact acc_get_total. Qed.
 Print Assumptions C17_get_total.
 
-(* ---- objects compare equal exactly when their equality attributes are equal ----
-   Two objects of one type: Equals never raises, and is true exactly when Get agrees on every
-   attribute at the equality indexes; objects of different types are never equal. *)
+(* ---- objects compare equal exactly when their declared equality attributes are equal ----
+   equality_attributes d = the names the type and its ancestors declare (or, for a level without a
+   declaration, all its non-constant attributes).  Equals never raises; objects of different types
+   are never equal. *)
 Theorem C17_eq_iff_equality_attrs :
-  forall d a1 a2 o1 o2, info_wf (d_info d) = true -> new_object d a1 = Ok o1 -> new_object d a2 = Ok o2 ->
-  (obj_eqb o1 o2 = Ok true <-> forall n, In n (eq_names (d_info d)) -> get o1 n = get o2 n) /\
+  forall d, accepted d -> ser_complete d = true ->
+  forall a1 a2 o1 o2, new_object d a1 = Ok o1 -> new_object d a2 = Ok o2 ->
+  (obj_eqb o1 o2 = Ok true <-> forall n, In n (equality_attributes d) -> get o1 n = get o2 n) /\
   (exists b, obj_eqb o1 o2 = Ok b).
-Proof. exact eq_iff_info. Qed.
+Proof. exact acc_eq_iff. Qed.
 Print Assumptions C17_eq_iff_equality_attrs.
 
 Theorem C17_other_type_not_equal :
@@ -83,29 +124,56 @@ Theorem C17_never_the_reverse :
 Proof. exact never_the_reverse. Qed.
 Print Assumptions C17_never_the_reverse.
 
-Local Open Scope string_scope.
+(* ---- the open finding: the unguarded statement is false of the faithful model ---- *)
+Definition C17_statement : Prop :=
+  forall d, accepted d ->
+  forall args o a, positional args -> new_object d args = Ok o ->
+  In a (collect_attributes d) -> is_ctor_kind (a_kind a) = true ->
+  exists i, nth_error (ai_attrs (d_info d)) i = Some a /\
+    get o (a_name a) = Ok (Some (match nth_error args i with Some v => v | None => default_of a end)).
+
+(* serialization => ['a'] with a and b required: Ta(1) is constructed, Get('b') finds nothing *)
+Theorem C17_serialization_partial_refuted :
+  exists d args o a, accepted d /\ ser_complete d = false /\ positional args /\ new_object d args = Ok o /\
+    In a (collect_attributes d) /\ is_ctor_kind (a_kind a) = true /\ a_value a = None /\
+    get o (a_name a) = Ok None.
+Proof. exact serialization_omit_refuted. Qed.
+Print Assumptions C17_serialization_partial_refuted.
+
+(* serialization => ['a','a']: Ta(1, 2) is constructed, the value given at position 0 does not read back *)
+Theorem C17_serialization_twice_refuted :
+  exists d args o a, accepted d /\ ser_complete d = false /\ positional args /\ new_object d args = Ok o /\
+    nth_error (ai_attrs (d_info d)) 0 = Some a /\ nth_error args 0 = Some (VInt 1) /\
+    get o (a_name a) = Ok (Some (VInt 2)).
+Proof. exact serialization_twice_refuted. Qed.
+Print Assumptions C17_serialization_twice_refuted.
+
 (* ---- non-vacuity: a parent with a defaulted attribute and an equality list, a child overriding it ---- *)
+Local Open Scope string_scope.
 Definition ex_ta : value :=
   VHash [(k_attributes, VHash [(s2l "a", VType (TInteger min_int64 max_int64));
                                (s2l "b", VHash [(k_type, VType (TInteger min_int64 max_int64)); (k_value, VInt 3)])]);
          (k_equality, VArr [VStr (s2l "a")])].
 Definition ex_tb : value :=
-  VHash [(k_parent, VType (TObj (s2l "Ta")));
+  VHash [(k_name, VStr (s2l "Tb")); (k_parent, VType (TObj (s2l "Ta")));
          (k_attributes, VHash [(s2l "c", VType TString);
-                               (s2l "b", VHash [(k_type, VType (TInteger 0 5)); (k_value, VInt 5); (k_override, VBool true)])])].
+                               (s2l "b", VHash [(k_type, VType (TInteger 0 5)); (k_value, VInt 5); (k_override, VBool true)])]);
+         (k_constants, VHash [(s2l "k", VInt 9)])].
 
 Example C17_nonvacuous :
   match define RText [] (s2l "Ta") ex_ta with
   | Ok ta =>
-    match define RText [ta] (s2l "Tb") ex_tb with
+    match define RHash [ta] [] ex_tb with
     | Ok tb =>
-      info_wf (d_info ta) = true /\ info_wf (d_info tb) = true /\ ser_complete tb = true /\
+      accepted_env [ta; tb] /\ ser_complete ta = true /\ ser_complete tb = true /\
       map a_name (ai_attrs (d_info tb)) = [s2l "a"; s2l "c"; s2l "b"] /\ ai_req (d_info tb) = 2%nat /\
+      equality_attributes tb = [s2l "c"; s2l "b"; s2l "a"] /\
       match new_object tb [VInt 1; VStr (s2l "x")], new_object tb [VHash [(s2l "c", VStr (s2l "x")); (s2l "a", VInt 1)]],
             new_object tb [VInt 2; VStr (s2l "x"); VInt 5], new_object ta [VInt 1] with
       | Ok o1, Ok o2, Ok o3, Ok oa =>
         obj_eqb o1 o2 = Ok true /\ obj_eqb o1 o3 = Ok false /\
-        get o1 (s2l "b") = Ok (Some (VInt 5)) /\ init_hash o3 = Ok [(s2l "a", VInt 2); (s2l "c", VStr (s2l "x"))] /\
+        get o1 (s2l "b") = Ok (Some (VInt 5)) /\ attr_get o1 (s2l "k") = AVal (VInt 9) /\
+        init_hash o3 = Ok [(s2l "a", VInt 2); (s2l "c", VStr (s2l "x"))] /\
         instance_of ta o1 = true /\ instance_of tb oa = false /\ positional [VInt 1; VStr (s2l "x")]
       | _, _, _, _ => False
       end
@@ -113,4 +181,11 @@ Example C17_nonvacuous :
     end
   | Err _ => False
   end.
-Proof. vm_compute. repeat split; try reflexivity. intros h H; discriminate. Qed.
+Proof.
+  destruct (define RText [] (s2l "Ta") ex_ta) as [ta|] eqn:Ea; [|vm_compute in Ea; discriminate].
+  destruct (define RHash [ta] [] ex_tb) as [tb|] eqn:Eb; [|vm_compute in Ea; inversion Ea; subst; vm_compute in Eb; discriminate].
+  split.
+  { change [ta; tb] with (([] ++ [ta]) ++ [tb])%list. eapply ae_def; [eapply ae_def; [constructor|exact Ea]|exact Eb]. }
+  vm_compute in Ea. inversion Ea; subst ta. clear Ea. vm_compute in Eb. inversion Eb; subst tb. clear Eb.
+  vm_compute. repeat split; try reflexivity. intros h H; discriminate.
+Qed.
